@@ -875,11 +875,6 @@ fn run<Ty: EdgeType + DirExt<Null, Ix> + Clone, Null: NullExt, Ix: IndexType>(na
         } else {
             // C06 mode: the model only drives generation; structural disagreement with it is
             // C04's business (the run is abandoned), the visit invariant is what is checked.
-            let agrees = catch(|| observe::<Ty, Null, Ix>(&g, &m, &mut obs_rng)).map(|r| r.is_ok()).unwrap_or(false);
-            if !agrees {
-                acc.probe("visit_run_discarded_model_mismatch");
-                return Exec { violation: None, nontrivial: false };
-            }
             if m.nodes.len() <= 14 || obs_rng.chance(1, 6) {
                 match catch(|| Ty::visit(&g, cfg.obs_seed ^ step as u64)) {
                     Ok(Ok(())) => {}
@@ -887,6 +882,11 @@ fn run<Ty: EdgeType + DirExt<Null, Ix> + Clone, Null: NullExt, Ix: IndexType>(na
                     Err(p) => bail!("visit", "panic", "a visit-trait call panicked after {}: {}", kind, p),
                 }
                 acc.probe_if(m.has_vacancy(), "visit_checked_state_with_node_vacancies");
+            }
+            let agrees = catch(|| observe::<Ty, Null, Ix>(&g, &m, &mut obs_rng)).map(|r| r.is_ok()).unwrap_or(false);
+            if !agrees {
+                acc.probe("visit_run_discarded_model_mismatch");
+                return Exec { violation: None, nontrivial: false };
             }
         }
         acc.state(m.hash());
